@@ -149,6 +149,7 @@ def run(ctx):
     ctx.explore("model.structure", dm.structure_sweep(n, d), check_doc_singles, chunk=20)
     ctx.explore("model.values", dm.value_sweep(), check_doc, chunk=10)
     ctx.explore("model.decoration", dm.decoration_sweep(), check_doc_canonical, chunk=100)
+    ctx.explore("model.comments", dm.comment_sweep(2 if ctx.quick else 3), check_doc_singles, chunk=40)
     ctx.explore("model.adjacency", dm.adjacency_sweep(inside=("top",) if ctx.quick else ("top", "block", "section")),
                 check_doc_canonical, chunk=200)
     ctx.explore("tools.values", dm.value_sweep(dm.SIMPLE_POOL if ctx.quick else None), check_tools, chunk=5)
